@@ -87,7 +87,12 @@ def run_hier(c):
     try:
         obj = final()
     except Exception as e:  # noqa
-        return {"error": errname(e)}
+        first = errname(e)
+        try:                      # ... and trying again does not help
+            final()
+            return {"error": None, "names": ["<accepted at the second attempt after %s>" % first], "descr": []}
+        except Exception as e2:  # noqa
+            return {"error": errname(e2) if errname(e2) == first else "%s then %s" % (first, errname(e2))}
     try:
         setup_tunables(obj, "smdef_%d_%d" % (os.getpid(), uid))
         names = list(obj.state_names)
